@@ -40,8 +40,10 @@ def plan(tier, seed):
             cases.append({"n": n, "edges": [list(e) for e in es]})
             trans += len(es)
     ngraphs = len(cases)
+    for k in range(len(INTERLEAVE_POOLS)):
+        cases.append({"n": 3, "edges": [], "mode": "interleave", "pool": k})
     for c in list(cases):
-        if c["n"] <= 3 and len(c["edges"]) >= 1:
+        if c.get("mode") is None and c["n"] <= 3 and len(c["edges"]) >= 1:
             cases.append(dict(c, mode="hist"))
     return {
         "cases": cases,
@@ -174,7 +176,77 @@ def run_hist(case):
     return {"evals": res["transitions"], "nontrivial": int(len(edges) >= 2), "fails": fails, "counters": {"executions": res["transitions"], "hist_states": res["states"], "hist_transitions": res["transitions"]}}
 
 
+INTERLEAVE_POOLS = [
+    [(0, 1), (1, 2), (2, 0), (1, 1), (2, 1)],
+    [(0, 0), (0, 1), (1, 0), (1, 2), (2, 2)],
+]
+
+
+def run_interleave(case):
+    """Histories interleaving G[i,j] = w with queries on ONE graph object."""
+    from vf import engine_hist as eh
+
+    pool = INTERLEAVE_POOLS[case["pool"]]
+    W = [Poly.var(k) for k in range(len(pool))]
+    bvars = {i: Poly.var(20 + i) for i in range(3)}
+
+    def make():
+        G = WeightedGraph(Poly)
+        G.N |= {0, 1, 2}
+        return G
+
+    def apply_builder(G, i):
+        if i >= len(pool):
+            # overwrite an edge by the semiring zero (what `G[i,j] += w` does when weights cancel)
+            G[pool[i - len(pool)]] = Poly.zero
+        else:
+            G[pool[i]] = W[i]
+
+    def bchart():
+        bc = Poly.chart()
+        for i, v in bvars.items():
+            bc[i] = v
+        return bc
+
+    queries = ["solve_left", "solve_right", "closure_scc_based", "closure_reference", "closure", "blocks", "buckets"]
+
+    def apply_query(G, op):
+        try:
+            if op == "solve_left":
+                return ("chart", nz(dict(G.solve_left(bchart())), Poly.zero))
+            if op == "solve_right":
+                return ("chart", nz(dict(G.solve_right(bchart())), Poly.zero))
+            if op == "closure_scc_based":
+                return ("chart", nz(dict(G.closure_scc_based()), Poly.zero))
+            if op == "closure_reference":
+                return ("chart", nz(dict(G.closure_reference()), Poly.zero))
+            if op == "closure":
+                return ("chart", nz(dict(G.closure().E), Poly.zero))
+            if op == "blocks":
+                return ("val", sorted(sorted(b) for b in G.blocks))
+            return ("val", sorted((k, sorted(G.blocks[v])) for k, v in G.buckets.items()))
+        except CaseTimeout:
+            raise
+        except Exception as e:  # noqa: BLE001
+            return f"EXC {type(e).__name__}: {e}"
+
+    res = eh.explore_interleaved(make, list(range(len(pool) + 2)), queries, apply_builder, apply_query, lambda a, b: a == b, depth=4, max_queries=2)
+    fails = []
+    seen = set()
+    for hist, have, want in res["violations"]:
+        q = queries[hist[-1][1]]
+        first_q = next(queries[i] for k, i in hist if k == "q")
+        if (q, first_q) in seen:
+            continue
+        seen.add((q, first_q))
+        pretty = [(f"G[{pool[i]}]=w{i}" if i < len(pool) else f"G[{pool[i - len(pool)]}]=zero") if k == "b" else queries[i] for k, i in hist]
+        fails.append(_fail("graph: answer after G[i,j]=w equals a fresh graph's (no stale decomposition)", {"history": pretty}, have, want))
+    return {"evals": res["transitions"], "nontrivial": 1, "fails": fails, "counters": {"executions": res["transitions"], "hist_states": res["histories"], "hist_transitions": res["transitions"]}}
+
+
 def run_case(case):
+    if case.get("mode") == "interleave":
+        return run_interleave(case)
     if case.get("mode") == "hist":
         return run_hist(case)
     n = case["n"]
@@ -191,6 +263,26 @@ def run_case(case):
         h = have if isinstance(have, str) else nz(dict(have), Poly.zero)
         if h != want:
             fails.append(_fail(f"{name} == sum of all powers of the weight matrix", dict(inp0, method=name), h, want))
+    if n <= 3:
+        # non-initial state: start from the complete graph and overwrite every edge outside the
+        # case's edge set by the semiring zero (as `G[i,j] += w` does when weights cancel)
+        def build_by_zeroing():
+            G = WeightedGraph(Poly)
+            allp = [(i, j) for i in range(n) for j in range(n)]
+            for k, e in enumerate(allp):
+                G[e] = Poly.var(40 + k)
+            wmap = dict(zip(edges, W))
+            for e in allp:
+                G[e] = wmap.get(e, Poly.zero)
+            G.N |= set(range(n))
+            return G
+
+        for name, f in (("closure_scc_based", lambda G: G.closure_scc_based()), ("closure_reference", lambda G: G.closure_reference())):
+            have = _call(lambda: f(build_by_zeroing()))
+            evals += 1
+            h = have if isinstance(have, str) else nz(dict(have), Poly.zero)
+            if h != want:
+                fails.append(_fail(f"{name} after edges were overwritten by zero == closure of the remaining graph", dict(inp0, method=name), h, want))
     bvars = [Poly.var(20 + i) for i in range(n)]
     for side in ("left", "right"):
         for bname, b in [("indeterminate", {i: bvars[i] for i in range(n)})] + [(f"unit{i}", {i: Poly.one}) for i in range(n)]:
